@@ -69,10 +69,13 @@ class Executor:
         self.entries = table.get('entries', [])
         self.trk = None
         self.kind = None
+        self.ren = {}
 
     def reset(self):
         self.trk = None
         self.kind = None
+        # batch kinds only: scene -> raw track id -> 0, 1, 2, ... in the order of first appearance
+        self.ren = {}
 
     # ---- table helpers
 
@@ -83,23 +86,24 @@ class Executor:
                 return list(e['params'])
         return list(fallback)
 
-    def id_getter(self, cls):
-        """the Python getter of `cls` that reads the Rust field `id`"""
+    def field_getter(self, cls, field):
+        """the Python getter of `cls` that reads the Rust field `field`"""
         for e in self.entries:
-            if e.get('cls') == cls and e.get('kind') == 'getter' and e.get('shape') == ['field', ['id']]:
+            if e.get('cls') == cls and e.get('kind') == 'getter' and e.get('shape') == ['field', [field]]:
                 return e['py']
-        return 'id'
+        return field
+
+    def scene_and_id(self, o):
+        cls = type(o).__name__
+        return (getattr(o, self.field_getter(cls, 'scene_id')), getattr(o, self.field_getter(cls, 'id')))
 
     def by_id(self, objs):
-        objs = list(objs)
-        if not objs:
-            return objs
-        g = self.id_getter(type(objs[0]).__name__)
-        return sorted(objs, key=lambda o: getattr(o, g))
+        """lists the protocol calls "sorted by id": by (scene, raw id)"""
+        return sorted(objs, key=self.scene_and_id)
 
     # ---- answer values
 
-    def val(self, v):
+    def val(self, v, override=None):
         if v is None:
             return '-'
         if isinstance(v, bool):
@@ -116,7 +120,7 @@ class Executor:
             parts = ['{', cls]
             for n in names:
                 parts.append(n + '=')
-                parts.append(self.val(getattr(v, n)))
+                parts.append(override[n] if override and n in override else self.val(getattr(v, n)))
             parts.append('}')
             return ' '.join(parts)
         return text(repr(v))
@@ -270,8 +274,18 @@ class Executor:
         self.kind = kind
         return 'OK'
 
+    def track(self, o):
+        """a track of the tracker slot; the batch kinds print the per-scene rank of first appearance as the id
+        (their raw ids depend on the scheduling of the voting jobs of different scenes)"""
+        if self.kind not in ('bsort', 'bvisual'):
+            return self.val(o)
+        scene, raw = self.scene_and_id(o)
+        m = self.ren.setdefault(scene, {})
+        k = m.setdefault(raw, len(m))
+        return self.val(o, {self.field_getter(type(o).__name__, 'id'): str(k)})
+
     def tracks(self, v):
-        return lst(self.val(x) for x in v)
+        return lst([self.track(x) for x in v])
 
     def trk_op(self, t):
         op = t.next()
@@ -344,7 +358,12 @@ class Executor:
             tr.clear_wasted()
             return 'OK'
         if op == 'stats':
-            return self.val(tr.shard_stats())
+            st = tr.shard_stats()
+            if batch:
+                # the shard of a track is its raw id modulo the number of shards: only the number of shards
+                # and the total are independent of the scheduling of the voting jobs
+                st = [len(st), sum(st)]
+            return self.val(st)
         return 'UNKNOWN-OP ' + op
 
     # ---- the family
